@@ -744,7 +744,7 @@ def _atheris_main():
         if new or stats["runs"] % 500 == 0:
             dump()
 
-    atheris.Setup([sys.argv[0], corpus, "-dict=" + sys.argv[4], "-max_total_time=%d" % seconds, "-timeout=60", "-max_len=6000", "-print_final_stats=0", "-verbosity=0"], one)
+    atheris.Setup([sys.argv[0], corpus, "-dict=" + sys.argv[4], "-max_total_time=%d" % seconds, "-timeout=60", "-max_len=6000", "-artifact_prefix=" + os.path.join(os.path.dirname(corpus), "artifact-"), "-print_final_stats=0", "-verbosity=0"], one)
     atheris.Fuzz()
 
 
@@ -842,7 +842,7 @@ def run(ctx):
         n += 1
     ctx.note("enumerated_key_material_edits", n)
     ctx.note("key_material_views", len(seed_views()))
-    ctx.explore(recipes(), lambda rc: execute(ctx, rc, state), ctx.scale(4400, 20000 if fuzz else 60000), shrink=False)
+    ctx.explore(recipes(), lambda rc: execute(ctx, rc, state), ctx.scale(5000, 20000 if fuzz else 60000), shrink=False)
     ctx.note("seed_files", len(seeds()))
     if fuzz:
         # coverage-guided campaign on the same oracle: worker 0 from the seed corpus, worker 1 from an empty corpus
